@@ -152,8 +152,14 @@ def run_one(ctx, src, scopes, config, keep, workdir, cli=False):
         return
     problem, pairs, info = minify.align(src, out, None)
     if problem is not None:
-        # token-level damage is C01's subject; without alignment the name relation cannot be read off
+        # token-level damage is C01's subject and ends the alignment; the name relation is judged on what was aligned up to there, and
+        # an identifier that came out as a keyword is this property's own subject ("no generated name is a keyword")
         ctx.feature('unaligned_output_skipped')
+        if not check_mapping(ctx, pairs, config, keep, case):
+            return
+        m = re.search(r"name (b'.*?') became keyword (b'.*?')$", problem[1])
+        if m:
+            ctx.violation('identifier %s was written as the keyword %s' % (m.group(1), m.group(2)), case)
         return
     if not check_mapping(ctx, pairs, config, keep, case):
         return
